@@ -1,7 +1,7 @@
 (* Pinned statements for C05: compiled on every check run. A statement weakened in Props/ fails here. *)
 From Coq Require Import String List.
 From TS Require Import Model.Str Model.Outcome Model.Unicode Model.Syntax Model.Types Model.Lang.Common Model.Lang.Decl Model.Lang.TypeScript Model.Lang.Kotlin Model.Lang.Scala Model.Lang.Swift Model.Lang.Go Model.Lang.Python Spec.C05Spec.
-From TS Require Proofs.C05 Proofs.C05_Back Proofs.C05_Sites.
+From TS Require Proofs.C05 Proofs.C05_Back Proofs.C05_Sites Proofs.GoAcronyms Proofs.C05_GoAcr Spec.C02Spec.
 Import ListNotations.
 From TS Require Props.C05.
 
@@ -303,3 +303,89 @@ Goal forall (uc : unicode) (cfg : go_config), go_uppercase_acronyms cfg = [] ->
         map (fun mm => go_obs_ty (gm_type mm)) ms = map (fun f => c05_erase Go (Proofs.C05_Back.c05_go_cfg cfg) (egenerics sh) (fty f)) fields.
 Proof. exact Props.C05.C05_site_go_variant_fields. Qed.
 Print Assumptions Props.C05.C05_site_go_variant_fields.
+Goal forall (uc : unicode), unicode_ok uc -> forall (acrs : list str) (name : str),
+    forallb (forallb is_ascii) acrs = true -> forallb is_ascii name = true ->
+    go_convert_acronyms_to_uppercase uc acrs name = Ok (Spec.C02Spec.c02_go_rewrite acrs name).
+Proof. exact Props.C05.C05_go_rewrite_is_model. Qed.
+Print Assumptions Props.C05.C05_go_rewrite_is_model.
+Goal forall (acrs : list str) (n : str),
+    List.length (Spec.C02Spec.c02_go_rewrite acrs n) = List.length n /\
+    str_upper_ascii (Spec.C02Spec.c02_go_rewrite acrs n) = str_upper_ascii n.
+Proof. exact Props.C05.C05_go_rewrite_case_only. Qed.
+Print Assumptions Props.C05.C05_go_rewrite_case_only.
+Goal forall (acrs : list str) (n : str),
+    forallb (fun c => negb (is_alower c)) n = true -> Spec.C02Spec.c02_go_rewrite acrs n = n.
+Proof. exact Props.C05.C05_go_rewrite_no_lower. Qed.
+Print Assumptions Props.C05.C05_go_rewrite_no_lower.
+Goal forall (acrs : list str),
+    (forall n args, c05_go_acronyms acrs (XName n args) = XName (Spec.C02Spec.c02_go_rewrite acrs n) (map (c05_go_acronyms acrs) args)) /\
+    (forall n, c05_go_acronyms acrs (XRaw n) = XRaw (Spec.C02Spec.c02_go_rewrite acrs n)) /\
+    (forall e, c05_go_acronyms acrs (XSeq e) = XSeq (c05_go_acronyms acrs e)) /\
+    (forall k v, c05_go_acronyms acrs (XMap k v) = XMap (c05_go_acronyms acrs k) (c05_go_acronyms acrs v)) /\
+    (forall e, c05_go_acronyms acrs (XOpt e) = XOpt (c05_go_acronyms acrs e)).
+Proof. exact Props.C05.C05_go_acronyms_shape. Qed.
+Print Assumptions Props.C05.C05_go_acronyms_shape.
+Goal forall c s g t obs, good_C05_site_go [] c s g t obs = good_C05_site Go c s g t obs.
+Proof. exact Props.C05.C05_good_site_go_nil. Qed.
+Print Assumptions Props.C05.C05_good_site_go_nil.
+Goal forall (uc : unicode), unicode_ok uc ->
+  forall (cfg : go_config), forallb (forallb Proofs.GoAcronyms.ga_alnum) (go_uppercase_acronyms cfg) = true ->
+  forall (rs : rstruct),
+    forallb is_ascii (renamed (sid rs)) = true ->
+    Forall (Proofs.C05_GoAcr.c05_go_field_ok cfg (sgenerics rs)) (sfields rs) ->
+    forall st, exists d st', go_struct_decl_of uc cfg rs st = Ok (d, st') /\
+      exists docs name ms, d = GOStruct docs name (sgenerics rs) ms /\
+        map (fun mm => go_obs_ty (gm_type mm)) ms =
+        map (fun f => c05_go_acronyms (go_uppercase_acronyms cfg) (c05_erase Go (Proofs.C05_Back.c05_go_cfg cfg) (sgenerics rs) (fty f))) (sfields rs).
+Proof. exact Props.C05.C05_site_go_struct_acronyms. Qed.
+Print Assumptions Props.C05.C05_site_go_struct_acronyms.
+Goal forall (cfg : go_config) (g : list str) (f : rfield),
+    Proofs.C05_GoAcr.c05_go_field_ok cfg g f <->
+    (Proofs.C05_Sites.c05_field_ok Go (Proofs.C05_Back.c05_go_cfg cfg) g f /\
+     Proofs.GoAcronyms.ga_texp_asciib cfg (fty f) = true /\ forallb is_ascii (original (fid f)) = true).
+Proof. exact Props.C05.C05_go_field_ok_unfold. Qed.
+Print Assumptions Props.C05.C05_go_field_ok_unfold.
+Goal forall (uc : unicode), unicode_ok uc ->
+  forall (cfg : go_config), forallb (forallb Proofs.GoAcronyms.ga_alnum) (go_uppercase_acronyms cfg) = true ->
+  forall (sh : eshared) (cs : list str) (sn tk : str) (t : rtype) (vsh : vshared),
+    dom_C05 t = true -> known_C05 Go (Proofs.C05_Back.c05_go_cfg cfg) [] t = None ->
+    Proofs.GoAcronyms.ga_texp_asciib cfg t = true ->
+    forallb is_ascii (original (vid vsh)) = true -> forallb is_ascii tk = true ->
+    forall st, exists v st', go_variant_of uc cfg sh cs sn tk (VTuple t vsh) st = Ok (v, st') /\
+      exists ty p, gv_content v = GCType ty p /\
+        go_obs_ty ty = c05_go_acronyms (go_uppercase_acronyms cfg) (c05_erase Go (Proofs.C05_Back.c05_go_cfg cfg) (egenerics sh) t).
+Proof. exact Props.C05.C05_site_go_payload_acronyms. Qed.
+Print Assumptions Props.C05.C05_site_go_payload_acronyms.
+Goal forall (uc : unicode), unicode_ok uc ->
+  forall (cfg : go_config), forallb (forallb Proofs.GoAcronyms.ga_alnum) (go_uppercase_acronyms cfg) = true ->
+  forall (sh : eshared) (name vo : str) (fields : list rfield),
+    forallb is_ascii name = true ->
+    Forall (Proofs.C05_GoAcr.c05_go_field_ok cfg (egenerics sh)) fields ->
+    forall st, exists d st', go_struct_decl_of uc cfg (anon_struct sh name vo fields) st = Ok (d, st') /\
+      exists docs n gs ms, d = GOStruct docs n gs ms /\
+        map (fun mm => go_obs_ty (gm_type mm)) ms =
+        map (fun f => c05_go_acronyms (go_uppercase_acronyms cfg) (c05_erase Go (Proofs.C05_Back.c05_go_cfg cfg) (egenerics sh) (fty f))) fields.
+Proof. exact Props.C05.C05_site_go_variant_fields_acronyms. Qed.
+Print Assumptions Props.C05.C05_site_go_variant_fields_acronyms.
+Goal forall acrs c s g t x,
+    c05_go_site_rewritten s = true -> x = c05_go_acronyms acrs (c05_erase Go c (c05_site_generics s g) t) ->
+    good_C05_site_go acrs c s g t (Some x) = true.
+Proof. exact Props.C05.C05_good_site_go_of_obs. Qed.
+Print Assumptions Props.C05.C05_good_site_go_of_obs.
+Goal let cfg := {| go_package := lit "p"; go_type_mappings := [(lit "Mapped", lit "ApiUrl")]; go_uppercase_acronyms := [lit "ID"; lit "url"];
+                go_no_version_header := true; go_no_pointer_slice := false; go_version := [] |} in
+  let fld n t := {| fid := {| original := lit n; renamed := lit n; via_serde_rename := false |}; fty := t; fcomments := [];
+                    has_default := false; fdecs := [] |} in
+  let rs := {| sid := {| original := lit "S"; renamed := lit "S"; via_serde_rename := false |}; sgenerics := [lit "TId"];
+               sfields := [fld "a"%string (ROption (RVec (RSimple (lit "UserId")))); fld "b"%string (RHashMap (RPrim PString) (RSimple (lit "Url")));
+                           fld "c"%string (RSimple (lit "TId")); fld "d"%string (RSimple (lit "Mapped"))];
+               scomments := []; sdecs := []; sredacted := false |} in
+  forallb (forallb Proofs.GoAcronyms.ga_alnum) (go_uppercase_acronyms cfg) = true /\
+  forallb is_ascii (renamed (sid rs)) = true /\
+  forallb (fun f => dom_C05 (fty f) && match known_C05 Go (Proofs.C05_Back.c05_go_cfg cfg) (sgenerics rs) (fty f) with None => true | _ => false end &&
+                    match type_override f Go with None => true | _ => false end &&
+                    Proofs.GoAcronyms.ga_texp_asciib cfg (fty f) && forallb is_ascii (original (fid f))) (sfields rs) = true /\
+  map (fun f => c05_go_acronyms (go_uppercase_acronyms cfg) (c05_erase Go (Proofs.C05_Back.c05_go_cfg cfg) (sgenerics rs) (fty f))) (sfields rs) =
+  [XOpt (XSeq (XName (lit "UserID") [])); XMap (XName (lit "string") []) (XName (lit "URL") []); XName (lit "TID") []; XRaw (lit "ApiURL")].
+Proof. exact Props.C05.C05_site_go_struct_acronyms_nonvacuous. Qed.
+Print Assumptions Props.C05.C05_site_go_struct_acronyms_nonvacuous.
